@@ -59,11 +59,11 @@ CHECKS["C17"] = dict(engine="validate", level=("exploration", "Validate.tla defi
     technique="TLA+ request-universe spec (Validate.tla) enumerated by TLC and replayed into the real request pipeline + trace validation (TraceValidate.tla)")
 HOOK_COMMITS.append("41c409bf")
 
-SYS_NOTE = "trusted: the ~300-line Go interpreter of the module DSL (harness/verifvm.go) against its TLA+ semantics (Exec.tla); chain = the harness's final chain; small-integer values; open known findings D7 / D14 / D15 (see known_findings.json)"
+SYS_NOTE = "trusted: the ~300-line Go interpreter of the module DSL (harness/verifvm.go) against its TLA+ semantics (Exec.tla); chain = the harness's final chain; small-integer values; open known finding D15 (production range entirely below every store; see known_findings.json); D7 / D9 / D14 / D16-D19 were found by these checks and repaired"
 SYS_TECH = "TLA+ reference execution (Exec.tla SeqExec + Plan.tla) + trace validation (TraceSystem.tla) of real tier1/tier2 end-to-end runs"
 CHECKS["C01"] = dict(engine="system", level=("model_checking", "End-to-end: generated module programs run through the REAL tier1 service (resolution, plan, scheduler, in-process tier2 jobs in a harness-controlled completion order, squasher, walker, linear pipeline, real files) and every observed response stream / final store map is judged by TraceSystem.tla against SeqExec of Exec.tla - one sequential execution of the whole module graph, with the hand-off taken from Plan.tla. Design level: the compositional lemmas are TLC-checked models (MCStore: merge = sequential; MCPlan: coverage of the range; Sched/C05: jobs start with complete inputs). Scenarios: sequences of production / development requests with random ranges, final block, segment size, workers and job completion order over one cache directory.", "6/C01"), note=SYS_NOTE, technique=SYS_TECH)
 CHECKS["C04"] = dict(engine="system", level=("model_checking", "End-to-end: generated module programs run through the REAL tier1 service (resolution, plan, scheduler, in-process tier2 jobs in a harness-controlled completion order, squasher, walker, linear pipeline, real files) and every observed response stream / final store map is judged by TraceSystem.tla against SeqExec of Exec.tla - one sequential execution of the whole module graph, with the hand-off taken from Plan.tla. Design level: the compositional lemmas are TLC-checked models (MCStore: merge = sequential; MCPlan: coverage of the range; Sched/C05: jobs start with complete inputs). Stream-shape predicates (range, order, no duplicate, no gap from the hand-off on, cursor = block) on every run; for resumption the request is re-issued from the cursor of delivered blocks and the resumed stream must be the suffix of the original.", "6/C04"), note=SYS_NOTE + "; resumption is checked from cursors of delivered (final) blocks", technique=SYS_TECH)
-CHECKS["C07"] = dict(engine="system", level=("model_checking", "End-to-end: generated module programs run through the REAL tier1 service (resolution, plan, scheduler, in-process tier2 jobs in a harness-controlled completion order, squasher, walker, linear pipeline, real files) and every observed response stream / final store map is judged by TraceSystem.tla against SeqExec of Exec.tla - one sequential execution of the whole module graph, with the hand-off taken from Plan.tla. Design level: the compositional lemmas are TLC-checked models (MCStore: merge = sequential; MCPlan: coverage of the range; Sched/C05: jobs start with complete inputs). After a complete run, the request is re-run on random subsets of the files it left (plus *.tmp crash debris); outputs must equal SeqExec and the request must complete.", "6/C07"), note=SYS_NOTE + "; subsets are sampled (4 per scenario in the quick tier), not enumerated", technique=SYS_TECH)
+CHECKS["C07"] = dict(engine="system", level=("model_checking", "End-to-end: generated module programs run through the REAL tier1 service (resolution, plan, scheduler, in-process tier2 jobs in a harness-controlled completion order, squasher, walker, linear pipeline, real files) and every observed response stream / final store map is judged by TraceSystem.tla against SeqExec of Exec.tla - one sequential execution of the whole module graph, with the hand-off taken from Plan.tla. Design level: the compositional lemmas are TLC-checked models (MCStore: merge = sequential; MCPlan: coverage of the range; Sched/C05: jobs start with complete inputs). After a complete run, the request is re-run on random, structured and per-module subsets of the files it left (plus *.tmp crash debris); outputs must equal SeqExec and the request must complete. Job level: TraceJob.tla states the contract of one tier2 job and the real job is run for every stage on EVERY subset of the cache files of its segment (exhaustive: 2^8 subsets x 3 stages x 2-4 program variants), the files left being compared with a clean run's.", "6/C07"), note=SYS_NOTE + "; request-level subsets are sampled (5 per scenario), job-level subsets are enumerated", technique=SYS_TECH)
 
 CHECKS["C03"] = dict(engine="system", level=("model_checking", "Fork histories (random fork trees, arrival orders and finality progress, including ping-pong histories that re-apply and re-undo the same blocks) are turned into steps by the REAL bstream/forkable and fed to the real tier1 pipeline on generated module programs; after every step the store map and sizes, and at the end the response stream, are judged by TraceSystem.tla: stores = SeqExec over the canonical chain rebuilt from the steps, the client model (keep data, drop above lastValidBlock on undo) converges on the canonical chain, undo signals designate held blocks, never two blocks at one height without an undo. Store level: TLC checks ReverseDeltas restores the pre-block content in MCStore and the undo events of the store chains are trace-validated.", "6/C03"),
     note="bstream/forkable trusted as producer of steps; no fork directly on the initial LIB (harness artefact); open known finding D11 (start above a fork junction)",
@@ -74,8 +74,8 @@ CHECKS["C16"] = dict(engine="system", level=("fault_enumeration", "Transient fau
     note="real derr back-off (>= 1 s per retry) limits the number of fault runs; deadline-exceeded x3 is specified to fail the job and is not injected; fault placements are sampled, not enumerated against the real code",
     technique="TLA+ retry/idempotence model (MCWorker.tla) checked by TLC + trace validation (TraceSystem.tla) of real RemoteWorker/tier2 runs under injected faults")
 
-CHECKS["C05"] = dict(engine="system", level=("model_checking", "Sched.tla is a transcription of orchestrator/stage (unit matrix, shadowing, dependenciesCompleted, NextJob, TryMerge, MoveSegmentCompletedForward, FetchStoresState) and of Scheduler.Update; MCSched.tla closes it with an environment (workers finishing in any order, merges, cache contents) and TLC checks, for every interleaving of small configurations (2-3 stages x 3-4 segments, 1-2 workers, empty / prefix / arbitrary caches): no invalid transition, every started job has its lower stores complete, every store segment merged once and in order, worker count within bounds, and termination under weak fairness. Conformance: the scheduler hook records every real Scheduler.Update of real tier1 runs (matrix, counters, walker, flags); TraceSched.tla replays the transcription step by step (difference = drift) and evaluates the property predicates on the OBSERVED matrices; TraceSystem.tla checks each request terminates with the right outcome. TLC counterexamples of the arbitrary-cache configuration are replayed into the real code (schedcex).", "6/C05"),
-    note="the design model is exhaustive only for the small configurations listed; real runs are sampled; open known findings: three ways a job is started before a lower store is complete (snapshot gap in the cache, first segment of a later-starting stage, indirect lower stage judged through the direct parent only), all currently masked by the tier2 load retry or ending in D7",
+CHECKS["C05"] = dict(engine="system", level=("model_checking", "Sched.tla is a transcription of orchestrator/stage (unit matrix, shadowing, dependenciesCompleted, NextJob, TryMerge, MoveSegmentCompletedForward, FetchStoresState) and of Scheduler.Update; MCSched.tla closes it with an environment (workers finishing in any order, merges, cache contents) and TLC checks, for every interleaving of small configurations (2-4 stages x 3-4 segments, 1-2 workers; caches: empty, prefix, every subset of the partial files, every subset of all files of the 2x3 grid): no invalid transition, every started job has its lower stores complete, every store segment merged once and in order, worker count within bounds, and termination under weak fairness. Conformance: the scheduler hook records every real Scheduler.Update of real tier1 runs (matrix, counters, walker, flags); TraceSched.tla replays the transcription step by step (difference = drift) and evaluates the property predicates on the OBSERVED matrices; TraceSystem.tla checks each request terminates with the right outcome. Cache shapes of former TLC counterexamples are rebuilt on the real code (schedcex); merges and walker attempts are delayed by harness-owned gates (hooks) so that the scheduler's races are reproducible. The repairs of the scheduler (eb31da19, ae4826d2, 1cdc7a28) were designed and model-checked in this specification before they were applied to the code.", "6/C05"),
+    note="the design model is exhaustive only for the small configurations listed; real runs are sampled; the three ways a job used to be started before a lower store was complete (snapshot gap, first segment of a later-starting stage, indirect lower stage) and the shadow-marking defects were found by this check and repaired; open: D15",
     technique="TLA+ transcription of the scheduler (Sched.tla) model-checked by TLC in a closed environment (MCSched.tla) + trace validation of every real Scheduler.Update (TraceSched.tla)")
 HOOK_COMMITS.append("d1d8afab")
 HOOK_COMMITS.append("d2fc1936")
